@@ -22,6 +22,7 @@ TNone  == << >>
 TablesAll   == {TCatch, TDtmf, TExact, TAv, TNone}
 TablesQuick == {TDtmf, TAv}
 TablesTwo   == {TCatch, TDtmf}
+TablesAv    == {TAv}
 
 \* (negative literals cannot be written in a .cfg file)
 SrcOne == {100}
@@ -37,12 +38,15 @@ ModesAll   == {M(TRUE, FALSE, FALSE), M(FALSE, FALSE, FALSE), M(TRUE, TRUE, FALS
 DeltasFull  == {0, 1, 160, Thr, Thr + 1, MaxI, MinI, -1, -160, 0 - (Thr + 1)}
 DeltasMid   == {0, 160, Thr, Thr + 1, MaxI, MinI, -160}
 DeltasSmall == {160, Thr + 1, MinI, -160}
+DeltasTwo   == {160, Thr + 1}
 StartWrap   == {0, -100}              \* -100 = 0xFFFF_FF9C: the first steps cross the u32 wrap
 StartOne    == {1000}
 StartEdge   == {MaxI - 100, -100}     \* just below 2^31 and just below 2^32
+NoVideo     == {}
+VideoSome   == {96, 101}              \* 96 is rewritten to 97 / 5 by TAv, 101 to 110 by TDtmf and TExact
 
 CaseRec == [ cfg |-> [rules |-> tbl, fixed |-> mode.fixed, seq0 |-> Seq0, off0 |-> Off0,
-                      pinOn |-> mode.pinOn, pin |-> Pin, strip |-> mode.strip],
+                      pinOn |-> mode.pinOn, pin |-> Pin, strip |-> mode.strip, video |-> VideoPts],
              steps |-> hist' ]
 
 EmitCase == IF Len(hist') = MaxLen THEN PrintT(<<"CASE", ToJson(CaseRec)>>) ELSE TRUE
